@@ -9,6 +9,7 @@ import Pycoin.Proofs.BIP32Coords
 import Pycoin.Proofs.BIP32Path
 import Pycoin.Proofs.SubpathsSpec
 import Pycoin.Proofs.BIP32Master
+import Pycoin.Proofs.BIP32MasterComplete
 /-!
 C09 — Hierarchical key derivation follows BIP32 and commutes with going public.  Property theorems
 (helper lemmas: `Proofs/BIP32*.lean`).
@@ -728,7 +729,61 @@ theorem C09_master_from_seed (kind : Kind) (seed : Bytes) :
   obtain ⟨x, hx, -⟩ := master_sound kind seed n h
   rw [hnone] at hx; cases hx
 
+/-- **master_from_seed, the converse.**  For every seed (of any length) and each node class: where the BIP's master key
+generation is valid — `I = HMAC-SHA512(Key = "Bitcoin seed", Data = seed)`, `1 ≤ parse256(I_L) < n`, i.e.
+`Spec.BIP32.master` returns a key `x` — `BIP32Node.from_master_secret(seed)` does return a node (no exception), and that
+node is the BIP's master: secret key `x.k`, chain code `x.c`, depth 0, parent fingerprint `0x00000000`, child number 0,
+public pair `x.k • G`; it is what its own constructor returns on its fields (`Node.Valid`).  Needs the order `n` prime
+(so that `k • G ≠ ∞` for `1 ≤ k < n`: `Key.__init__` refuses `(None, None)`) besides the `Setting`; both are proved for
+the shipped generator (`C09_master_from_seed_complete_secp256k1`). -/
+theorem C09_master_from_seed_complete (S : Setting g) (hnp : Nat.Prime g.c.n) (kind : Kind) (seed : Bytes)
+    (x : Spec.BIP32.XPrv) (hx : Spec.BIP32.master (mathCrypto g.c) seed = some x) :
+    ∃ n, fromMasterSecret g kind seed = .ok n ∧ n.kind = kind ∧ n.secretExponent = some (x.k : Int) ∧
+      n.chainCode = x.c ∧ n.depth = 0 ∧ n.parentFingerprint = [0, 0, 0, 0] ∧ n.childIndex = 0 ∧
+      g.mul (x.k : Int) = .ok (some n.publicPair) ∧ n.Valid g := by
+  obtain ⟨n, hn⟩ := master_complete S hnp kind seed x hx
+  obtain ⟨x', hx', a1, a2, a3, a4, a5, a6, a7, -, -⟩ := master_sound kind seed n hn
+  rw [hx] at hx'
+  injection hx' with hx'
+  subst hx'
+  refine ⟨n, hn, a1, a2, a3, a4, a5, a6, a7, ?_⟩
+  unfold fromMasterSecret at hn
+  exact mkNode_valid hn
+
+/-- … so the code returns a node exactly where the BIP's master key is valid -/
+theorem C09_master_from_seed_iff (S : Setting g) (hnp : Nat.Prime g.c.n) (kind : Kind) (seed : Bytes) :
+    (∃ n, fromMasterSecret g kind seed = .ok n) ↔ (Spec.BIP32.master (mathCrypto g.c) seed).isSome = true := by
+  constructor
+  · rintro ⟨n, hn⟩
+    obtain ⟨x, hx, -⟩ := (C09_master_from_seed kind seed).1 n hn
+    rw [hx]; rfl
+  · intro h
+    obtain ⟨x, hx⟩ := Option.isSome_iff_exists.mp h
+    obtain ⟨n, hn, -⟩ := C09_master_from_seed_complete S hnp kind seed x hx
+    exact ⟨n, hn⟩
+
+/-- the validity test of master key generation reads only the order `n` and HMAC-SHA512 of the `Crypto` it is given (so it
+can be evaluated: `Demo.hashCrypto` below) -/
+theorem C09_master_reads_n_and_hmac {P Q : Type} (C : Spec.BIP32.Crypto P) (D : Spec.BIP32.Crypto Q) (hn : C.n = D.n)
+    (hh : C.hmacSha512 = D.hmacSha512) (seed : Bytes) : Spec.BIP32.master C seed = Spec.BIP32.master D seed :=
+  master_congr C D hn hh seed
+
 end master
+
+/-- the converse of master key generation on every generator object `Generator.__init__` can build over secp256k1 (any
+blinding factor), hypothesis-free apart from "the object was constructed": `n` prime is `prime_n_secp256k1` (Pratt
+certificate), `n • G = ∞` and the rest of the `Setting` are `setting_secp256k1` -/
+theorem C09_master_from_seed_complete_secp256k1 (bf : Int) (tbl : List Pycoin.Curve.Pt) (m : Pycoin.Curve.Pt)
+    (hg : Gen.new Pycoin.Gen.Curves.secp256k1 bf = .ok ⟨Pycoin.Gen.Curves.secp256k1, bf, tbl, m⟩)
+    (kind : Kind) (seed : Bytes) (x : Spec.BIP32.XPrv)
+    (hx : Spec.BIP32.master (mathCrypto Pycoin.Gen.Curves.secp256k1) seed = some x) :
+    ∃ n, fromMasterSecret ⟨Pycoin.Gen.Curves.secp256k1, bf, tbl, m⟩ kind seed = .ok n ∧ n.kind = kind ∧
+      n.secretExponent = some (x.k : Int) ∧ n.chainCode = x.c ∧ n.depth = 0 ∧ n.parentFingerprint = [0, 0, 0, 0] ∧
+      n.childIndex = 0 ∧
+      Gen.mul ⟨Pycoin.Gen.Curves.secp256k1, bf, tbl, m⟩ (x.k : Int) = .ok (some n.publicPair) ∧
+      n.Valid ⟨Pycoin.Gen.Curves.secp256k1, bf, tbl, m⟩ :=
+  C09_master_from_seed_complete (g := ⟨Pycoin.Gen.Curves.secp256k1, bf, tbl, m⟩) (setting_secp256k1 bf tbl m hg)
+    Pycoin.Gen.Curves.prime_n_secp256k1 kind seed x hx
 
 /-- **the retry branch, counted** (consequence (b) of `C09_ckd_retry_branch`).  Among the 2²⁵⁶ possible left halves `I_L` of
 an HMAC-SHA512 output, those for which CKD's first test `parse256(I_L) ≥ n` fires are exactly the images under `ser256` of the
@@ -828,6 +883,26 @@ def isOk {ε α} : Except ε α → Bool
       match w.subkey g "7/1".toList, w.publicCopy g with
       | .ok w', .ok wp => wp.subkey g "7/1".toList == w'.publicCopy g && w'.secretExponent.isSome
       | _, _ => false
+
+-- the hypothesis of `C09_master_from_seed_complete` holds on test vector 1's seed: the BIP's master key generation is valid
+-- (`master` evaluated over a `Crypto` with the same `n` and HMAC-SHA512 as `mathCrypto secp256k1`, the only fields it reads:
+-- `C09_master_reads_n_and_hmac`), and the node the code returns has that key, for each of the three classes
+def hashCrypto : Spec.BIP32.Crypto Unit :=
+  ⟨Pycoin.Gen.Curves.secp256k1.n, fun _ => (), fun _ _ => (), (), fun _ => [], Hash.hmacSha512, Hash.hash160⟩
+
+example (seed : Bytes) : Spec.BIP32.master (mathCrypto Pycoin.Gen.Curves.secp256k1) seed = Spec.BIP32.master hashCrypto seed :=
+  C09_master_reads_n_and_hmac _ _ rfl rfl seed
+
+#guard
+  match Spec.BIP32.master hashCrypto seed1, Gen.new Pycoin.Gen.Curves.secp256k1 0 with
+  | some x, .ok g =>
+    1 ≤ x.k && x.k < Pycoin.Gen.Curves.secp256k1.n && x.c.length == 32 &&
+    [Kind.bip32, Kind.bip49, Kind.bip84].all fun kind =>
+      match fromMasterSecret g kind seed1 with
+      | .ok n => n.kind == kind && n.secretExponent == some (x.k : Int) && n.chainCode == x.c && n.depth == 0 &&
+          n.parentFingerprint == [0, 0, 0, 0] && n.childIndex == 0
+      | .error _ => false
+  | _, _ => false
 
 end Demo
 
